@@ -4,6 +4,7 @@ import (
 	"fmt"
 	"go/token"
 	"go/types"
+	"strings"
 
 	"golang.org/x/tools/go/ssa"
 )
@@ -725,6 +726,12 @@ func dependsOn(v ssa.Value, isSource func(ssa.Value) bool) bool {
 
 // checkCtypeFlow: every geometry a routine of `set` returns on a non-error
 // path carries the coordinates type given by the source.
+// ctypeFlowStrictMembers: also require that every member stored into a locally
+// built list is typed by the source (set by rules whose routines have no other
+// way of typing their members, e.g. the coordinate-list constructors; the
+// decoders and the transforms type their members through the callee).
+var ctypeFlowStrictMembers bool
+
 func checkCtypeFlow(c *Ctx, set []*ssa.Function, isSource func(ssa.Value) bool, srcDesc string) int {
 	inSet := map[*ssa.Function]bool{}
 	for _, f := range set {
@@ -782,8 +789,43 @@ func checkCtypeFlow(c *Ctx, set []*ssa.Function, isSource func(ssa.Value) bool, 
 						via, ok, why := check(x.Call.Args[0], depth+1)
 						return via, ok, why
 					}
+					// members: every element stored into a locally built list that a
+					// collection constructor folds must itself be typed, otherwise the
+					// constructor's AND-fold has dropped Z/M before anything can force it back
+					membersTyped := func(list ssa.Value) (bool, string) {
+						ms, isMake := stripLoad(list).(*ssa.MakeSlice)
+						if !isMake || !ctypeFlowStrictMembers {
+							return true, ""
+						}
+						for _, ref := range *ms.Referrers() {
+							ia, ok := ref.(*ssa.IndexAddr)
+							if !ok {
+								continue
+							}
+							for _, rr := range *ia.Referrers() {
+								st, ok := rr.(*ssa.Store)
+								if !ok || st.Addr != ssa.Value(ia) {
+									continue
+								}
+								if _, ok, why := check(st.Val, depth+1); !ok {
+									return false, "a member stored into the list at " + c.P.Pos(st.Pos()) + " is not typed: " + why
+								}
+							}
+						}
+						return true, ""
+					}
+					if strings.HasSuffix(name, ").ForceCoordinatesType") && len(x.Call.Args) == 2 {
+						if inner, ok := stripLoad(x.Call.Args[0]).(*ssa.Call); ok && collectionCtors[calleeName(inner)] {
+							if ok, why := membersTyped(inner.Call.Args[0]); !ok {
+								return "via " + calleeName(inner), false, why + " — forcing the collection afterwards only restores the tag, the ordinates are already zero"
+							}
+						}
+					}
 					if collectionCtors[name] {
 						list := x.Call.Args[0]
+						if ok, why := membersTyped(list); !ok {
+							return "via " + name, false, why
+						}
 						if nonEmptyGuard(r, list) || madeNonEmpty(r, list) || appendedNonEmpty(list, map[ssa.Value]bool{}) {
 							return "via " + name, true, "list argument is provably non-empty (dominating guard), so the constructor derives the type from typed members"
 						}
@@ -816,15 +858,63 @@ func checkCtypeFlow(c *Ctx, set []*ssa.Function, isSource func(ssa.Value) bool, 
 // madeNonEmpty: list is make([]T, L) and a guard at `at` establishes L != 0
 // (L possibly converted, or a len() expression compared elsewhere).
 func madeNonEmpty(at ssa.Instruction, list ssa.Value) bool {
-	ms, ok := stripLoad(list).(*ssa.MakeSlice)
-	if !ok {
+	switch x := stripLoad(list).(type) {
+	case *ssa.MakeSlice:
+		return nonZeroAt(at, x.Len, 0)
+	case *ssa.Call:
+		// a repository helper that returns a slice made with the length of one of
+		// its slice parameters: the result is as long as that argument
+		cal := staticCallee(x)
+		if cal == nil || cal.Blocks == nil {
+			return false
+		}
+		idx := -1
+		for _, r := range returnsOf(cal) {
+			if len(r.Results) != 1 {
+				return false
+			}
+			ms, ok := stripLoad(r.Results[0]).(*ssa.MakeSlice)
+			if !ok {
+				return false
+			}
+			l := ms.Len
+			if cv, ok := l.(*ssa.Convert); ok {
+				l = cv.X
+			}
+			arg, ok := lenOf(l)
+			if !ok {
+				return false
+			}
+			par, ok := arg.(*ssa.Parameter)
+			if !ok {
+				return false
+			}
+			k := paramIndex(cal, par)
+			if k < 0 || (idx >= 0 && idx != k) {
+				return false
+			}
+			idx = k
+		}
+		if idx < 0 || idx >= len(x.Call.Args) {
+			return false
+		}
+		return nonEmptyGuard(at, x.Call.Args[idx])
+	}
+	return false
+}
+
+// nonZeroAt: the integer value l is known to be non-zero at `at`: a dominating
+// comparison with 0 says so, or l = a / d where a is non-zero and a dominating
+// guard says a % d == 0 (then |a| >= |d|).
+func nonZeroAt(at ssa.Instruction, l ssa.Value, depth int) bool {
+	if depth > 3 {
 		return false
 	}
-	l := ms.Len
 	if cv, ok := l.(*ssa.Convert); ok {
 		l = cv.X
 	}
-	for _, g := range guardsAt(at) {
+	gs := guardsAt(at)
+	for _, g := range gs {
 		bo, ok := g.Cond.(*ssa.BinOp)
 		if !ok {
 			continue
@@ -846,6 +936,26 @@ func madeNonEmpty(at ssa.Instruction, list ssa.Value) bool {
 				return true
 			case bo.Op == token.GTR && g.Truth && pr[0] == bo.X:
 				return true
+			}
+		}
+	}
+	if q, ok := l.(*ssa.BinOp); ok && q.Op == token.QUO {
+		if !nonZeroAt(at, q.X, depth+1) {
+			return false
+		}
+		for _, g := range gs {
+			bo, ok := g.Cond.(*ssa.BinOp)
+			if !ok {
+				continue
+			}
+			rem, ok := bo.X.(*ssa.BinOp)
+			if !ok || rem.Op != token.REM || !sameValue(rem.X, q.X) || !sameValue(rem.Y, q.Y) {
+				continue
+			}
+			if k, isC := constInt(bo.Y); isC && k == 0 {
+				if (bo.Op == token.EQL && g.Truth) || (bo.Op == token.NEQ && !g.Truth) {
+					return true
+				}
 			}
 		}
 	}
